@@ -953,6 +953,8 @@ func checkC09(c *Ctx, r *Report) error {
 			}
 		}
 	}
+	// one renderer VALUE of every type handling models of different size in turn (reuse.go)
+	configs += rendererValueHistories(c, r, rng)
 	// what the path held before
 	runtime.GOMAXPROCS(16)
 	nfh, err := fileHistories(c, r, env, rng)
@@ -1000,7 +1002,7 @@ func checkC09(c *Ctx, r *Report) error {
 	r.Coverage["render_configurations"] = configs
 	r.Coverage["batchSize"] = B
 	r.Coverage["gomaxprocs"] = []int{1, 2, 3, 4, 8, 16}
-	r.Rule = "layer cases: one layerYZ.Evaluate of a (ny+1)*(nz+1) layer through the hook, with an evaluating wrapper that gives the j-th point the value j (and sleeps pseudo-randomly in half of the cases); recorded point->slot list compared with Sched.batch_plan by coqc, and layer = map f points checked directly; sizes: k*B-1, k*B, k*B+1 for k in 1,2,3,7 in every factorisation with ny<12, random small / medium / thin / large layers; non-trivial = more than one batch; distinct by (ny,nz,sleepy). render cases: one (model, renderer, sink) job rendered 1 + 6 + rounds times: alone under GOMAXPROCS=1 (reference), under GOMAXPROCS 2,3,4,8,16,1 in shuffled order with run-dependent sleeping Evaluate wrappers on half of them, and all jobs concurrently; triangle sequence hash / STL, DXF, SVG bytes / unzipped 3MF entries must be identical; non-trivial = always; distinct by job. process cases: fine-grid jobs (2D uniform/quadtree at 100..400 cells as exact segment sequences and DXF/SVG bytes, octree at 33..128 cells and uniform at 40..56 cells as exact triangle sequences and STL bytes) rendered 3+ times in one fresh process per GOMAXPROCS in 1,2,3,8,16, all processes at once; every observable must equal the first render of the GOMAXPROCS=1 process. file-history cases: each of ToSTL (uniform, octree), SaveSTL, To3MF, ToDXF, SaveDXF, ToSVG, SaveSVG writes a small render to a path that already holds a bigger render by the same writer / longer / equally long / shorter unrelated bytes / nothing; the bytes (3MF: unzipped entries) must equal those written to a fresh path."
+	r.Rule = "layer cases: one layerYZ.Evaluate of a (ny+1)*(nz+1) layer through the hook, with an evaluating wrapper that gives the j-th point the value j (and sleeps pseudo-randomly in half of the cases); recorded point->slot list compared with Sched.batch_plan by coqc, and layer = map f points checked directly; sizes: k*B-1, k*B, k*B+1 for k in 1,2,3,7 in every factorisation with ny<12, random small / medium / thin / large layers; non-trivial = more than one batch; distinct by (ny,nz,sleepy). render cases: one (model, renderer, sink) job rendered 1 + 6 + rounds times: alone under GOMAXPROCS=1 (reference), under GOMAXPROCS 2,3,4,8,16,1 in shuffled order with run-dependent sleeping Evaluate wrappers on half of them, and all jobs concurrently; triangle sequence hash / STL, DXF, SVG bytes / unzipped 3MF entries must be identical; non-trivial = always; distinct by job. process cases: fine-grid jobs (2D uniform/quadtree at 100..400 cells as exact segment sequences and DXF/SVG bytes, octree at 33..128 cells and uniform at 40..56 cells as exact triangle sequences and STL bytes) rendered 3+ times in one fresh process per GOMAXPROCS in 1,2,3,8,16, all processes at once; every observable must equal the first render of the GOMAXPROCS=1 process. file-history cases: each of ToSTL (uniform, octree), SaveSTL, To3MF, ToDXF, SaveDXF, ToSVG, SaveSVG writes a small render to a path that already holds a bigger render by the same writer / longer / equally long / shorter unrelated bytes / nothing; the bytes (3MF: unzipped entries) must equal those written to a fresh path. renderer-value histories: one value of each renderer type (uniform / octree cubes, uniform / quadtree squares, 2D dual contouring) is asked for Info / Render of four models of different size, position and shape in four orders (big then small, Info only then another model, repeats); Info strings and exact triangle / segment sequences must equal those of a fresh value."
 	r.Trusted = append(r.Trusted,
 		"harness/effsum (see C10) for the premise that no map range, math/rand, time, unsynchronised shared store or extra go statement is reachable from Render/Evaluate; the whitelist is coq/Sys/Sched.v section 4",
 		"hook render.VerifLayerEvaluate (verif tag) calls evalOnce.Do(evalRoutines), newLayerYZ and layerYZ.Evaluate as marchingCubes does",
